@@ -12,6 +12,7 @@ import (
 	"os"
 	"sort"
 	"strconv"
+	"strings"
 	"sync"
 	"testing"
 	"time"
@@ -195,6 +196,11 @@ func Note(k string, v any) { st.mu.Lock(); st.Notes[k] = v; st.mu.Unlock() }
 
 // Sig formats a failure message carrying a signature the driver can classify.
 func Sig(sig, format string, args ...any) string {
+	// the signature is delimited by brackets: keep them out of it
+	sig = strings.NewReplacer("[", "(", "]", ")", "\n", " ").Replace(sig)
+	if len(sig) > 160 {
+		sig = sig[:160]
+	}
 	return "SIG[" + sig + "] " + fmt.Sprintf(format, args...)
 }
 
